@@ -163,14 +163,50 @@ def run(repo, R):
     if ktol not in ker.params:
         raise AnalysisError("KEEP", "Overlap.construct_array_contraction has no tol_screen parameter", ker.where())
     scalls = calls_in(kfn, "is_integral_screened")
+    pred_name = "is_integral_screened"
+    if not scalls:
+        # the predicate may be reached through a private wrapper of the same module that forwards its three parameters unchanged
+        # (possibly through bool(...)): follow it
+        for cand in walk_no_nested(kfn):
+            if isinstance(cand, ast.Call) and isinstance(cand.func, ast.Name) and cand.func.id.startswith("_"):
+                g = repo.resolve_name(ker.module, cand.func.id, ker)
+                if hasattr(g, "node") and g.module is ker.module:
+                    inner = calls_in(g.node, "is_integral_screened")
+                    rets = [n_ for n_ in walk_no_nested(g.node) if isinstance(n_, ast.Return)]
+                    if len(inner) == 1 and len(rets) == 1 and rets[0].value is not None:
+                        v_ = rets[0].value
+                        while isinstance(v_, ast.Call) and ast.unparse(v_.func) == "bool" and len(v_.args) == 1:
+                            v_ = v_.args[0]
+                        if v_ is inner[0] and [ast.unparse(x) for x in inner[0].args] == list(g.params[:3]) and len(g.params) == 3 and not inner[0].keywords:
+                            scalls = [cand]
+                            pred_name = cand.func.id
+                            break
     if len(scalls) != 1:
         raise AnalysisError("KEEP", f"expected one call of is_integral_screened in the overlap kernel, found {len(scalls)}", ker.where())
     sc = scalls[0]
     R.check([ast.unparse(x) for x in sc.args] == [k1, k2, ktol] and not sc.keywords, "KEEP", ker.site, ast.unparse(sc),
             "the screening predicate must receive (shell one, shell two, tolerance) in this order", where=ker.where(sc),
-            expected=f"is_integral_screened({k1}, {k2}, {ktol})", found=ast.unparse(sc))
+            expected=f"{pred_name}({k1}, {k2}, {ktol})", found=ast.unparse(sc))
     st = stmt_of(kfn, sc)
-    if not (isinstance(st, ast.If) and st.test is sc):
+    # the test may be the call itself, `tol is not None and call` (the predicate is False for None anyway) or `call or <other reason
+    # for a block of zeros>` as long as the other reasons do not involve the tolerance (a block that is zero with and without
+    # screening: the operator's own property)
+    ok_form = False
+    if isinstance(st, ast.If):
+        t_ = st.test
+        if t_ is sc:
+            ok_form = True
+        elif isinstance(t_, ast.BoolOp) and isinstance(t_.op, ast.And) and sc in t_.values:
+            others = [v_ for v_ in t_.values if v_ is not sc]
+            ok_form = all(ast.unparse(v_) in (f"{ktol} is not None", ktol) for v_ in others)
+            if not ok_form:
+                R.fail("KEEP", ker.site, ast.unparse(t_)[:90], "the screened block is only zeroed under an additional condition: blocks beyond the cutoff "
+                       "are then computed although the tolerance asks for zeros", where=ker.where(st), expected=f"if {ast.unparse(sc)}:", found=ast.unparse(t_)[:100])
+                ok_form = True
+        elif isinstance(t_, ast.BoolOp) and isinstance(t_.op, ast.Or) and sc in t_.values:
+            others = [v_ for v_ in t_.values if v_ is not sc]
+            ok_form = all(ktol not in {n_.id for n_ in ast.walk(v_) if isinstance(n_, ast.Name)} for v_ in others)
+    if not ok_form:
         raise AnalysisError("ZERO", "screening call is not the test of an if statement", ker.where(sc))
     zr = [n for n in st.body if isinstance(n, ast.Return)]
     local = {}
